@@ -111,6 +111,7 @@ type Machine struct {
 	concIdx     int
 	ufPoints    map[string][]ufPoint
 	inInit      int
+	BogusModels int
 	pbkdf2Calls []string
 	sd          *smallDom
 	model       map[*smt.Term]*smt.Term // last satisfying assignment of the nondets, valid for the current pc
@@ -718,6 +719,20 @@ func (m *Machine) Oblige(cond *smt.Term, label, kind string) {
 				m.Sol.Check()
 			}
 			v.Model, v.Nondets = m.modelStrings()
+			// validate the model in-process: the obligation must evaluate to false under it (possible when no
+			// Skolem or uninterpreted symbol is involved). A model that does not falsify it is a solver glitch.
+			if m.skolem == 0 && !m.usedUF && !m.modelFalsifies(cond) {
+				m.Sol.Pop()
+				m.BogusModels++
+				if m.BogusModels <= 3 && m.Sol.CheckWith(smt.Not(cond)) == smt.Unsat {
+					m.Discharged++
+					m.assumeRaw(cond)
+					return
+				}
+				m.Unknowns = append(m.Unknowns, "solver returned a model that does not falsify obligation "+label+" at "+m.where())
+				m.assumeRaw(cond)
+				return
+			}
 		}
 		m.Sol.Pop()
 		m.Violations = append(m.Violations, v)
@@ -729,6 +744,30 @@ func (m *Machine) Oblige(cond *smt.Term, label, kind string) {
 		}
 		m.assumeRaw(cond)
 	}
+}
+
+// modelFalsifies: under the solver's current model of the nondets, does cond evaluate to false?
+// (true also when it cannot be evaluated to a constant - then the native replay decides)
+func (m *Machine) modelFalsifies(cond *smt.Term) bool {
+	ts := make([]*smt.Term, 0, len(m.nondets))
+	for _, n := range m.nondets {
+		if !n.T.IsConst() {
+			ts = append(ts, n.T)
+		}
+	}
+	vals, err := m.Sol.GetValues(ts)
+	if err != nil {
+		return true
+	}
+	env := map[*smt.Term]*smt.Term{}
+	for i, t := range ts {
+		env[t] = vals[i]
+	}
+	r := smt.Subst(cond, env, map[*smt.Term]*smt.Term{})
+	if !r.IsConst() {
+		return true
+	}
+	return r.U == 0
 }
 
 func (m *Machine) defineNondets() {
